@@ -98,7 +98,11 @@ theorem traced_programs_accepted (name : String) (prog : Prog)
         | exact start_accepted (showCfg_accepted (setConfig_accepted keyMono_id
             (mergeUnion_accepted keyMono_mergeEdit (showCfg_accepted done_accepted))))
         | exact start_accepted (resetAll_accepted (showCfg_accepted done_accepted))
-        | exact start_accepted (resetSubset_accepted keyMono_id (showCfg_accepted done_accepted)))
+        | exact start_accepted (resetSubset_accepted keyMono_id (showCfg_accepted done_accepted))
+        | exact start_accepted (showCfg_accepted (setConfig_accepted keyMono_id (showCfg_accepted
+            (resetSubset_accepted keyMono_id (showCfg_accepted done_accepted)))))
+        | exact start_accepted (setConfig_accepted keyMono_id (resetSubset_accepted keyMono_id
+            (setConfig_accepted keyMono_id done_accepted))))
     | simp_all
 
 /-- the pinned code before the fix does not follow the discipline (it opens the shared file for writing) -/
